@@ -49,10 +49,14 @@ def strategy():
             for st_ in steps:
                 st_["mask"] = list(draw(st.sampled_from(pats)))
                 st_.pop("edits", None)
-        if T >= 4 and draw(st.sampled_from([False, False, True])):
+        if T >= 4 and draw(st.sampled_from([False, True] if cfg["precond"]["kind"] == "soap" else [False, False, True])):
             # a checkpoint is saved after some step and loaded back into both live optimizers later (rollback); see history.checkpoint_op
+            # saved before or after the first refresh, loaded at a later step (the loaded state then lies on the other side of the first basis / root
+            # computation, or on the same side with different contents)
             a = draw(st.integers(1, T - 2))
             b = draw(st.integers(a + 1, T - 1))
+            if draw(st.booleans()):
+                a, b = 1, T - 1  # save right after the first step, roll back at the last one
             steps[a] = dict(steps[a], ckpt="save")
             steps[b] = dict(steps[b], ckpt="load")
         return {"config": {"groups": [{"cfg": cfg, "shapes": shapes}], "pseed": draw(st.integers(0, 10**5))}, "steps": steps,
@@ -243,6 +247,6 @@ def oracle_ddp(case: dict) -> Outcome:
 
 
 STREAMS = {
-    "compiled_vs_eager": Stream("compiled_vs_eager", oracle=oracle, strategy=strategy, quick=64, thorough=600, shards_quick=16, shards_thorough=16),
+    "compiled_vs_eager": Stream("compiled_vs_eager", oracle=oracle, strategy=strategy, quick=96, thorough=600, shards_quick=16, shards_thorough=16),
     "ddp_compiled": Stream("ddp_compiled", oracle=oracle_ddp, strategy=strategy_ddp, quick=32, thorough=240, shards_quick=16, shards_thorough=16),
 }
